@@ -442,6 +442,32 @@ func kernelCases(c *Ctx, n int) {
 		}
 		c.Count("kernel")
 	}
+	// the whole EncodeAlpha path (filter competition of applyFiltersAndEncode incl. raw fallbacks and
+	// size ties between trials) on many small planes: decode must give the plane back
+	nfull := 9000
+	if c.Thorough() {
+		nfull = 60000
+	}
+	for i := 0; i < nfull; i++ {
+		rng := c.Rng.Fork()
+		w, h := rng.Range(1, 10), rng.Range(1, 10)
+		pat := alphaPattern(1 + rng.Intn(int(numPatterns)-1))
+		plane := makeAlpha(rng, pat, w, h)
+		mode := rng.Pick(5, 5, 4, 0, 1, 2, 3) // best, fast, explicit filters
+		effort := rng.Intn(7)
+		ch, err := webp.VerifEncodeAlpha(plane, w, h, 100, 1, mode, effort)
+		c.D.Evaluations++
+		if err != nil {
+			c.Violate("full-path-encode-failed", err.Error(), map[string]any{"w": w, "h": h, "mode": mode, "plane": hex.EncodeToString(plane)})
+			continue
+		}
+		back, err := webp.VerifDecodeAlpha(ch, w, h)
+		if err != nil || !bytes.Equal(back, plane) {
+			c.Violate(fmt.Sprintf("full-path-roundtrip:mode%d", mode), "DecodeAlpha(EncodeAlpha(plane, AlphaQuality 100)) != plane",
+				map[string]any{"w": w, "h": h, "mode": mode, "effort": effort, "plane": hex.EncodeToString(plane), "chunk": hex.EncodeToString(ch)})
+		}
+		c.Count(fmt.Sprintf("full-path:hdr-comp%d-filt%d", ch[0]&3, (ch[0]>>2)&3))
+	}
 	for q := 0; q < 100; q++ {
 		c.Case(fmt.Sprintf("levels %d", q), fmt.Sprint(alphaLevelsDoc(q)))
 	}
